@@ -578,7 +578,11 @@ def _native(f, a, k):
         return f(*a, **k)
     except TypeError as e:
         msg = str(e)
-        if ('SymStr' in msg or 'SymInt' in msg or 'SymBool' in msg):
+        # the proxy may be named in the message - or not ("expected bytes"): any TypeError out of native
+        # code that was handed a proxy is taken as the proxy's fault (the path degrades to concrete
+        # sampling on the real code, which shows a genuine TypeError just as well)
+        if ('SymStr' in msg or 'SymInt' in msg or 'SymBool' in msg or any(_sym(x) for x in a)
+                or any(_sym(x) for x in k.values())):
             raise Unsupported('native %s cannot take a symbolic argument (%s)'
                               % (getattr(f, '__qualname__', f), msg[:80])) from None
         raise
